@@ -311,7 +311,9 @@ def banner(ctx, report, RULE='C07.R6'):
     want = [('string', "'SSH'"), ('separator', "'-'"), ('nested', 'self.protocol_version'), ('separator', "'-'"),
             ('string', 'self.software_version'), ('alt', [('separator', "' '"), ('string', 'self.comment')]), ('separator', "'\\r\\n'")]
     f = c.resolve('compose')
-    if seq != want:
+    composed = banner_compose_tabulation(ctx, report, c, f, RULE)
+    if composed is None and seq != want:
+        # the composer left the evaluable subset: its layout is compared with the sequence of RFC 4253 4.2
         report.add(RULE, f.construct + '@grammar', 'banner is composed as %s, RFC 4253 4.2 says %s' % (seq, want))
     p = c.resolve('_parse')
     if banner_tabulation(ctx, report, c, p, RULE):
@@ -330,6 +332,77 @@ def banner(ctx, report, RULE='C07.R6'):
         report.add(RULE, p.construct + '@limit', 'the 255 byte limit of RFC 4253 4.2 is not enforced')
     if "!= 'SSH'" not in src:
         report.add(RULE, p.construct + '@prefix', 'the identification string is not required to start with SSH')
+
+
+def banner_compose_tabulation(ctx, report, c, f, RULE):
+    """SshProtocolMessage.compose evaluated (sa.miniexec, a text composer model) for messages with no comment, an empty comment and
+    a comment with blanks: ``SSH-protoversion-softwareversion[ SP comments] CR LF`` - an empty comment keeps its blank (the parser
+    reads ``srv `` as the empty comment).  True / False: decided; None: the composer is not evaluable."""
+    from ..miniexec import Evaluator, Native, Raised, Unsupported, class_call_hook
+
+    class Part(Native):
+        def __init__(self, text):
+            self.text = text
+
+        def compose(self):
+            return self.text.encode('ascii')
+
+        def __str__(self):
+            return self.text
+
+    class Composer(Native):
+        def __init__(self):
+            self.text = ''
+
+        def _t(self, v):
+            return v.compose().decode('ascii') if isinstance(v, Part) else (v.decode('ascii') if isinstance(v, (bytes, bytearray)) else str(v))
+
+        def compose_string(self, v):
+            self.text += self._t(v)
+
+        def compose_separator(self, v):
+            self.text += v
+
+        def compose_parsable(self, v):
+            self.text += self._t(v)
+
+        def compose_string_array(self, values, separator=','):
+            self.text += separator.join(self._t(v) for v in values)
+
+        def compose_parsable_array(self, values, separator=','):
+            self.text += separator.join(self._t(v) for v in values)
+
+        @property
+        def composed(self):
+            return self.text.encode('ascii')
+
+        @property
+        def composed_bytes(self):
+            return self.text.encode('ascii')
+
+    def extra(n, ev):
+        if ast.unparse(n.func) == 'ComposerText':
+            return Composer()
+        return NotImplemented
+    hook = class_call_hook(c, extra, ctx.model)
+    ok = True
+    try:
+        for comment, want in ((None, 'SSH-2.0-srv_1.0\r\n'), ('', 'SSH-2.0-srv_1.0 \r\n'), ('two words', 'SSH-2.0-srv_1.0 two words\r\n'), (' x', 'SSH-2.0-srv_1.0  x\r\n')):
+            report.count(RULE)
+
+            class Me(Native):
+                _repo_class = c
+            me = Me()
+            me.protocol_version, me.software_version, me.comment = Part('2.0'), Part('srv_1.0'), comment
+            got = Evaluator({'self': me}, hook, hook.name_hook_for(f.module, None)).function(f.node)
+            got = bytes(got).decode('ascii') if isinstance(got, (bytes, bytearray)) else got
+            if got != want:
+                ok = False
+                report.add(RULE, f.construct + '@grammar', 'a message with comment %r is composed as %r, RFC 4253 4.2 gives %r' % (comment, got, want))
+                break
+    except (Unsupported, Raised, AttributeError, TypeError):
+        return None
+    return ok
 
 
 def banner_tabulation(ctx, report, c, p, RULE='C07.R6'):
